@@ -4,24 +4,27 @@
 # confirmed ones as /verif/seeded/M<id>/.
 import json, os, subprocess, sys, shutil, concurrent.futures as cf
 g = sys.argv[1]
+MUT = os.environ.get('MT_MUT', '/tmp/mut')      # directory of the mutant set
+OUT = os.environ.get('MT_OUT', '/tmp/seed/mt')  # directory holding out_<group>/
+PFX = os.environ.get('MT_PREFIX', 'M')          # seed name prefix (M = first operator set, N = second)
 ms = {}
-for l in open('/tmp/mut/index.jsonl'):
+for l in open(MUT + '/index.jsonl'):
     m = json.loads(l); ms[m['id']] = m
 vs = []
-for l in open(f'/tmp/seed/mt/out_{g}/verdicts.jsonl'):
+for l in open(f'{OUT}/out_{g}/verdicts.jsonl'):
     l = l.strip()
     if l:
         vs.append(json.loads(l))
 def prep(v):
     i = int(v['id']); m = ms[i]
-    d = f'/tmp/seed/mtseeds/M{i}'
+    d = f'/tmp/seed/mtseeds/{PFX}{i}'
     os.makedirs(d, exist_ok=True)
     demo = v.get('demo') or f'demo_{i}_test.go'
-    src = os.path.join(f'/tmp/seed/mt/out_{g}', os.path.basename(demo))
+    src = os.path.join(f'{OUT}/out_{g}', os.path.basename(demo))
     if not os.path.exists(src):
         return None
     shutil.copy(src, d + '/demo_test.go')
-    p = subprocess.run(['diff', '-u', '--label', 'a/' + m['file'], '--label', 'b/' + m['file'], '/repo/' + m['file'], f'/tmp/mut/{i}.go'],
+    p = subprocess.run(['diff', '-u', '--label', 'a/' + m['file'], '--label', 'b/' + m['file'], '/repo/' + m['file'], f'{MUT}/{i}.go'],
                        stdout=subprocess.PIPE)
     open(d + '/patch.diff', 'wb').write(p.stdout)
     first = open(d + '/demo_test.go').readline()
@@ -30,13 +33,13 @@ def prep(v):
                "needs": "", "files_changed": [m['file']], "demo_dir": demo_dir}, open(d + '/meta.json', 'w'), indent=1)
     return i
 def confirm(i):
-    d = f'/tmp/seed/mtseeds/M{i}'
+    d = f'/tmp/seed/mtseeds/{PFX}{i}'
     r = subprocess.run(['/verif/tools/confirm_seed.sh', d, f'mt{i}'], stdout=subprocess.PIPE, stderr=subprocess.STDOUT).stdout.decode().strip().splitlines()
     line = r[-1] if r else 'no output'
     ok = 'suite_with_patch=pass demo_with_patch=fails demo_clean=pass' in line
     if ok:
-        subprocess.run(['/verif/tools/seed_store.py', d, f'M{i}', line.split(': ', 1)[-1] + ' (mutation run)'])
-        mp = f'/verif/seeded/M{i}/meta.json'
+        subprocess.run(['/verif/tools/seed_store.py', d, f'{PFX}{i}', line.split(': ', 1)[-1] + ' (mutation run)'])
+        mp = f'/verif/seeded/{PFX}{i}/meta.json'
         mm = json.load(open(mp))
         mm['source'] = 'mechanical mutant that survives the test suite (tools/mutate), judged property-breaking and given a failing demonstration by an independent sub-agent that saw only the property texts and a scratch worktree'
         json.dump(mm, open(mp, 'w'), indent=1)
